@@ -44,3 +44,39 @@ package resp
 //@   assert before WriteBodyChunked: sHdr == 1 && sendBody && sCL == -1
 //@   assert before WriteTrailer: sHdr == 1 && sendBody
 //@   assert before Flush: sHdr == 1
+
+// ---- C03: the response-header parser (client side) is panic-free for every buffer content ----
+//@ func parseFirstLine(h, buf) n, err
+//@   props C03
+//@   requires h != nil
+//@   modifies h._all, mem
+//@   allocates
+//@   ensures err == nil ==> 0 <= n && n <= len(buf)
+//@   loop 0:
+//@     invariant sameArray(bNext, buf) && off(bNext) >= off(buf) && off(bNext) + len(bNext) == off(buf) + len(buf)
+
+//@ func parseHeaders(h, buf) n, err
+//@   props C03
+//@   requires h != nil
+//@   modifies *
+//@   ghostset-at-entry parseArr = arr(buf)
+//@   ensures err == nil ==> 0 <= n && n <= len(buf)
+//@   loop 0:
+//@     invariant hsInv(s) && s.HLen + len(s.B) <= len(buf) && arr(s.B) == parseArr && len(s.B) <= len(buf)
+
+//@ func parse(h, buf) n, err
+//@   props C03
+//@   requires h != nil
+//@   modifies *
+//@   ensures err == nil ==> 0 <= n && n <= len(buf)
+
+//@ func tryRead(h, r, n) err
+//@   props C03
+//@   requires h != nil && r != nil
+//@   modifies *, r.pos, r.avail, r.failed
+
+//@ func ReadHeader(h, r) err
+//@   props C03
+//@   requires h != nil && r != nil
+//@   modifies *, r.pos, r.avail, r.failed
+
